@@ -486,6 +486,13 @@ pub fn alternatives(fd: &FieldDef, base: &[u64], rich: bool) -> Vec<Vec<u64>> {
             }
             out.push(vec![0; 4]);
             out.push(h(&[0xA17E, base[0]]).to_vec()); // an unrelated digest
+            {
+                // same limb sum, different digest (limb 0 + 1, limb 1 - 1)
+                let mut d = base.to_vec();
+                d[0] = (d[0] + 1) % P;
+                d[1] = if d[1] == 0 { P - 1 } else { d[1] - 1 };
+                out.push(d);
+            }
             if rich {
                 for i in [1usize, 2] {
                     let mut d = base.to_vec();
